@@ -9,6 +9,7 @@ import (
 	"strings"
 	"sync/atomic"
 	"testing/synctest"
+	"time"
 
 	"github.com/cockroachdb/pebble"
 	"github.com/cockroachdb/pebble/vfs"
@@ -415,6 +416,16 @@ func c17FaultExplore(r *mc.Report, e *Env, specs []c17FaultSpec) {
 					var start c17Tree
 					var ref c17FaultOutcome
 					run := func(c c17FaultCase) (o c17FaultOutcome) {
+						// hang detector: a case takes some 30 ms; an open that spins on a fault (a retry loop that
+						// cannot make progress) never leaves the bubble and would only end with the worker being
+						// killed at its budget, without a verdict. Real time on purpose (the bubble's clock stands
+						// still while a goroutine spins), with a margin of three orders of magnitude (60 s).
+						wd := time.AfterFunc(time.Minute, func() {
+							r.Violation("reopen-returns", "NewStorage:open-under-read-fault", fmt.Sprintf("the case (open, retry, two further puts, clean reopen) has not returned after a real minute (it takes some 30 ms): a call spins; read fault at operation %d, mode %q", c.Op, c.Mode), c)
+							r.NotExhaustive("a case of the open-under-fault part hung; its worker stopped there")
+							e.FinishNow(r)
+						})
+						defer wd.Stop()
 						msg := inBubble(func() {
 							if start == nil {
 								t, err := c17FaultStart(h, prefix, small, capMB, end)
